@@ -413,7 +413,10 @@ impl PShim {
                         }
                         "time" => {
                             let d: std::time::Duration = val.into();
-                            json!({"t": "time", "v": [d.as_secs(), d.subsec_micros()]})
+                            // (seconds beyond 31 bits are given as bytes only: TLC integers are 32-bit)
+                            let secs = d.as_secs();
+                            let small: i64 = if secs < (1u64 << 31) { secs as i64 } else { -1 };
+                            json!({"t": "time", "v": [small, d.subsec_micros()], "secs8": le64(secs)})
                         }
                         _ => json!({"t": "none"}),
                     }
